@@ -17,7 +17,7 @@ RULE = ("(a) 15 objectives x n<=3 x boxes x starts x maxls {1,3,20} x maxfun {6,
         "maxcor {1,3} x user letter {pure, scribble, samebuf}: every callback state and the "
         "result; (b) every split k in 1..8 of the C06 base runs restarted for 3 iterations; "
         "(c) the C13 objective-redefinition cases (re-weight/rescale at every update call); "
-        "(d) the diagonal utility on dimensions 1..30 x 1..12 pairs x 3 pair generators; "
+        "(d) the diagonal utility on dimensions 1..30 x 1..12 pairs x 4 pair generators (axis, dense, ill-scaled, a variable with zero gradient change); "
         "oracle: #pairs <= maxcor, a provenance search finds a chronological subsequence of "
         "{x0, reported iterates} whose consecutive differences equal sk BITWISE and whose "
         "logged user gradients' differences equal yk BITWISE (pairs inherited from a "
@@ -89,7 +89,7 @@ def run(case):
         from scipy.optimize import LbfgsInvHessProduct
         n, m, v = case["dim"], case["npairs"], case["var"]
         nex = 0
-        for gen in ("axis", "dense", "illscaled"):
+        for gen in ("axis", "dense", "illscaled", "linearvar"):
             S, Y = [], []
             for k in range(m):
                 if gen == "axis":
@@ -99,9 +99,16 @@ def run(case):
                 elif gen == "dense":
                     s = np.sin(0.7 * k + 0.9 * np.arange(n) + 0.3 + v) * (0.2 + 0.05 * k)
                     y = (np.diag(1.0 + 0.3 * np.arange(n)) + 0.2) @ s
-                else:
+                elif gen == "illscaled":
                     s = np.cos(1.1 * k + 0.5 * np.arange(n) + v) * 10.0 ** ((k % 5) - 2)
                     y = s * 10.0 ** (3 - (k % 4)) + 1e-3 * np.roll(s, 1) * (n > 1)
+                else:
+                    # a variable the objective is linear in: it moves (s_j != 0) but its
+                    # gradient component never changes (y_j == 0 in every pair)
+                    s = np.sin(0.7 * k + 0.9 * np.arange(n) + 0.3 + v) * (0.2 + 0.05 * k) + 0.05
+                    y = (np.diag(1.0 + 0.3 * np.arange(n)) + 0.2) @ s
+                    y[n // 2] = 0.0
+                    y[0] = 0.0 if n > 2 else y[0]
                 if float(s @ y) <= 0:
                     y = s.copy()
                 S.append(s)
